@@ -1,14 +1,66 @@
 CFG = {
         "gen": ["Schemas"],
         "props": ["EraVerif.Props.C09"],
-        "required_theorems": ["varint_roundtrip"],
-        "technique": "Lean 4 theorems about an executable model of proto_fmt.rs over schemas regenerated from the .proto files (translator) + differential run",
-        "level_text": "work in progress",
-        "level_note": "work in progress",
+        "required_theorems": [
+            "varint_roundtrip", "varint_any_encoding_accepted", "varint_minimal",
+            "canonicalRaw_eq_encode_decode", "parse_of_any_serialisation", "canonical_of_any_reserialisation",
+            "serialisations_of_one_value_agree", "record_order_irrelevant", "record_split_irrelevant",
+            "encode_is_a_serialisation", "decode_encode_id", "canonical_fixed_point", "canonical_idempotent", "encode_injective",
+            "canonical_eq_iff", "reject_bad_record", "reject_not_proto3", "reject_singular_with_several_values",
+            "all_schemas_support_canonical", "schema_restriction_sufficient",
+            "bitvec_roundtrip", "duration_roundtrip", "duration_min_excluded", "sockaddr_roundtrip",
+            "replicaTimeout_order_lawful", "timeoutQC_build_order_independent", "schedule_build_order_independent",
+            "muxHandshake_build_order_independent"],
+        "technique": "Lean 4 theorems about an executable transcription of proto_fmt.rs (+ the quick-protobuf calls it makes) that is "
+                     "generic in the schema, instantiated on the schema table regenerated from every .proto file (translator); "
+                     "differential run of canonical_raw / encode / the non-structural conversions against the model; "
+                     "round-trip / canonicity monitors on every wire type of the implementation",
+        "level_text": "Proof, for the wire layer, of the full statement for ALL descriptor tables, messages, values and byte strings "
+                      "(no size or depth bound): canonical_raw is exactly `canonical writer o parser` (refinement); the parser "
+                      "accepts EVERY valid protobuf serialisation of a message value (records in any order, repeated scalars split "
+                      "into packed/unpacked records at will incl. empty packed records, tags/lengths/varints minimal or padded to "
+                      "10 bytes, recursively in sub-messages) and returns that value, hence canonical_raw maps every such "
+                      "serialisation to the one canonical byte string; the canonical encoding of a well-formed value parses back to "
+                      "the value (lossless), is a fixed point of canonical_raw, and is injective (equal bytes iff equal values); canonical_raw is idempotent on every buffer it accepts (output below 4 GiB); "
+                      "unknown fields, bad wire types, maps, implicit presence, non-proto3 and multi-valued singular fields are "
+                      "rejected. The schema table re-read from the 19 .proto files of the current tree satisfies the build-time "
+                      "restriction (kernel-evaluated). Proof, for the conversions that are not field copies: BitVec (any length), "
+                      "Duration/Timestamp (all values except seconds = i64::MIN with negative nanos, shown to fail), SocketAddr "
+                      "(ip+port), and order-independence of TimeoutQC (BTreeMap keyed by the derived lexicographic Ord, proved to be "
+                      "a lawful total order), Schedule::new and the repaired mux handshake. PARTIAL for the remaining ~45 structural "
+                      "read/build pairs (plain field copies, oneof wrappers) and for prost's encoder/decoder: these are not "
+                      "modelled; they are covered by the monitors decode(encode x)==x, canonical==encode, canonical_raw(any "
+                      "re-serialisation)==encode x, hash==keccak(encode) run on the implementation for every wire type.",
+        "level_note": "Model = proto_fmt.rs after the F9 repair (446e7fe: a scalar field whose only records are empty packed chunks "
+                      "writes nothing; the unrepaired code panicked at `values[0]`, the model never had that panic) and "
+                      "mux/handshake.rs after the F7 repair (027f5b6: capabilities sorted by id). The typed models of TimeoutQC / Schedule / handshake are tied to the code by "
+                      "byte-comparing their encodings with the implementation's, not by a proof that they inhabit the generated "
+                      "schema.",
         "harness": "c09",
         "n": {"quick": 300, "thorough": 6000},
-        "rule": "work in progress",
-        "trusted": [],
-        "assumptions": [],
-        "explanation": "work in progress",
+        "rule": "ops: (1) canon = canonical_raw on bytes under a schema of the regenerated table or an inline synthetic table "
+                "(repeated scalars of every wire type, recursion, implicit presence, map, proto2): for each of 59 wire/storage "
+                "types max(2,n/40) seeded values (repo generators + edge generator) -> prost bytes, 3 valid re-serialisations "
+                "(shuffle / pad / mix; unpack / repack for schemas with repeated scalars) and 1-2 invalid mutations each; random "
+                "generic trees over 21 schemas incl. synthetic ones; the directed empty-packed-chunk family (F9); (2) schema / "
+                "names = prost-reflect's view of every message descriptor vs the translator's table; (3) typed conversions "
+                "bitvec, bitvec_read, duration, timestamp, duration_read, sockaddr, sockaddr_read, tqc (insertion orders, "
+                "duplicate keys), schedule (permutations, duplicate key, zero weight, overflow, no leader), muxhs. "
+                "distinct = distinct op lines; non-trivial = outcome class differs from the modal class (ok) of the run",
+        "trusted": ["the .proto reader in tools/translate.py (cross-checked on every run against prost-reflect / protox descriptors "
+                    "by the `schema` ops, message by message)",
+                    "quick-protobuf 0.8.1 reader/writer semantics as transcribed in Model/Wire.lean (varint32/64 truncation, "
+                    "read_bytes, fixed32/64), exercised by the differential run",
+                    "bit-vec's BitVec as a list of booleans with big-endian to_bytes/from_bytes; time 0.3 Duration arithmetic; "
+                    "std HashMap/BTreeMap; prost's encoder produces *a* valid serialisation (all the canonicity theorem needs)",
+                    "/repo/node/components/network/src/verif/wire.rs (hook: constructors for crate-private wire types; re-mounts "
+                    "the three handshake source files)"],
+        "assumptions": ["sizes below 4 GiB (quick-protobuf reads length prefixes into u32)",
+                        "keccak256 / BLS are not modelled: hash agreement is reduced to byte agreement of the canonical encoding",
+                        "IPv6 scope id / flow info are not part of the wire format; durations with seconds = i64::MIN and negative "
+                        "nanoseconds are outside the property"],
+        "explanation": "theorems: schema-generic wire layer (refinement, canonicity of every re-serialisation, lossless, injective, "
+                       "rejections) + non-structural conversions + schema restriction on the regenerated table; K: canonical_raw and "
+                       "the conversions vs the model on the same bytes; S: round-trip / canonicity / hash / insertion-order "
+                       "monitors on the real types",
     }
